@@ -414,3 +414,61 @@ func MustFlag_bounds_index_disjguard(b []byte) []uint32 {
 	}
 	return out
 }
+
+// ---- an inner offset that starts where the enclosing record's fixed part ends (induction with a variable first value) ----
+
+func MustPass_bounds_slice_nestedwalk(b []byte) [][]byte {
+	var out [][]byte
+	for rec := 0; rec < len(b); {
+		if len(b)-rec < 4 {
+			return nil
+		}
+		recLen := int(b[rec+2])<<8 | int(b[rec+3])
+		if recLen < 4 || len(b)-rec < recLen {
+			return nil
+		}
+		recEnd := rec + recLen
+		for pos := rec + 4; pos < recEnd; {
+			left := recEnd - pos
+			if left < 2 {
+				return nil
+			}
+			n := int(b[pos+1])
+			if n < 2 || left < n {
+				return nil
+			}
+			out = append(out, b[pos+2:pos+n])
+			pos += n
+		}
+		rec = recEnd
+	}
+	return out
+}
+
+func MustFlag_bounds_slice_nestedwalk(b []byte) [][]byte {
+	var out [][]byte
+	for rec := 0; rec < len(b); {
+		if len(b)-rec < 4 {
+			return nil
+		}
+		recLen := int(b[rec+2])<<8 | int(b[rec+3])
+		if recLen < 4 || len(b)-rec < recLen {
+			return nil
+		}
+		recEnd := rec + recLen
+		for pos := rec + 4; pos < recEnd; {
+			left := recEnd - pos
+			if left < 2 {
+				return nil
+			}
+			n := int(b[pos+1])
+			if n < 2 {
+				return nil
+			}
+			out = append(out, b[pos+2:pos+n])
+			pos += n
+		}
+		rec = recEnd
+	}
+	return out
+}
